@@ -112,6 +112,17 @@ pub fn sweep_conv<G>(rep: &mut Report, env: &AppEnv, stage: &str, space: &str, t
 where
     G: Fn(u64) -> (Path, Vec<Vec<u8>>) + Sync,
 {
+    sweep_conv_isn(rep, env, stage, space, total, |i| {
+        let (p, segs) = gen(i);
+        (p, segs, 1000)
+    })
+}
+
+/// The same with the client's initial sequence number chosen per conversation.
+pub fn sweep_conv_isn<G>(rep: &mut Report, env: &AppEnv, stage: &str, space: &str, total: u64, gen: G)
+where
+    G: Fn(u64) -> (Path, Vec<Vec<u8>>, u32) + Sync,
+{
     let t0 = std::time::Instant::now();
     let opts = RunOpts::new(stage).stateful().chunk(128).no_monitor();
     engine::run(
@@ -119,14 +130,14 @@ where
         total,
         &opts,
         |i| {
-            let (p, segs) = gen(i);
+            let (p, segs, isn) = gen(i);
             let (a, b) = PORT_PAIRS[p.ports];
             let f = flow(p.v6, a, b);
             let c = env.cookies[&key_of(&f)].wrapping_add(1);
             let mut off = 0u32;
             let mut cmds = Vec::new();
             for sg in segs {
-                let mut fr = f.tcp(1000u32.wrapping_add(off), c, F_PSH | F_ACK, &sg);
+                let mut fr = f.tcp(isn.wrapping_add(off), c, F_PSH | F_ACK, &sg);
                 // every fourth conversation as a NIC delivers it: frames below the 60-byte Ethernet
                 // minimum zero-padded (bytes behind the IP datagram are not part of the stream)
                 if i % 4 == 3 && fr.len() < 60 {
@@ -168,12 +179,13 @@ pub fn cuts_stage(rep: &mut Report, env: &AppEnv, stage: &str, pls: &[Vec<u8>], 
             }
         }
     }
-    let space = format!("{} complete requests x (every 1-cut at every offset + every 2-cut inside the first {} bytes) x {{v4,v6}}", pls.len(), head);
-    sweep_conv(rep, env, stage, &space, plan.len() as u64 * 2, |i| {
-        let (pi, a, b) = plan[(i / 2) as usize];
+    let space = format!("{} complete requests x (every 1-cut at every offset + every 2-cut inside the first {} bytes) x {{v4,v6}} x {{initial sequence number 1000, sequence numbers wrapping past 2^32 exactly at the first cut}}", pls.len(), head);
+    sweep_conv_isn(rep, env, stage, &space, plan.len() as u64 * 4, |i| {
+        let (pi, a, b) = plan[(i / 4) as usize];
         let p = &pls[pi];
         let segs = if b == 0 { vec![p[..a].to_vec(), p[a..].to_vec()] } else { vec![p[..a].to_vec(), p[a..b].to_vec(), p[b..].to_vec()] };
-        (Path { tcp: true, v6: i % 2 == 1, ports: (i % 2) as usize }, segs)
+        let isn = if (i / 2) % 2 == 1 { 0u32.wrapping_sub(a as u32) } else { 1000 };
+        (Path { tcp: true, v6: i % 2 == 1, ports: (i % 2) as usize }, segs, isn)
     });
 }
 
@@ -855,13 +867,26 @@ pub fn envelope_stage(rep: &mut Report, env: &AppEnv, stage: &str, req: &[u8], t
             }
         }
     }
-    let total = plan.len() as u64 * 2;
+    // structural departures: the same frame behind 8 well-formed IPv4 option areas
+    let mut structural: Vec<Vec<u8>> = Vec::new();
+    for b in &bases {
+        for o in ipv4_option_sets() {
+            if let Some(fr) = with_ipv4_options(b, &o) {
+                structural.push(fr);
+            }
+        }
+    }
+    let nplan = plan.len() as u64 * 2;
+    let total = nplan + structural.len() as u64;
     let opts = RunOpts::new(stage).stateful().chunk(128).no_monitor();
     engine::run(
         &env.cfg,
         total,
         &opts,
         |i| {
+            if i >= nplan {
+                return vec![Cmd::Frame(structural[(i - nplan) as usize].clone())];
+            }
             let (bi, fd, v) = &plan[(i / 2) as usize];
             let mut fr = bases[*bi].clone();
             crate::deviate::set_field(&mut fr, fd, *v);
@@ -877,7 +902,7 @@ pub fn envelope_stage(rep: &mut Report, env: &AppEnv, stage: &str, req: &[u8], t
         },
         &mut rep.sink,
     );
-    rep.stage(stage, "one complete request over {TCP, UDP as applicable} x {v4,v6} x every single departure of one IP / TCP / UDP header field (all values of 1-byte fields, 22 / 16 edge values of wider ones, windows and urgent pointers 0..63) x {as is, checksums recomputed}", total, t0);
+    rep.stage(stage, "one complete request over {TCP, UDP as applicable} x {v4,v6} x every single departure of one IP / TCP / UDP header field (all values of 1-byte fields, 22 / 16 edge values of wider ones, windows and urgent pointers 0..63) x {as is, checksums recomputed}; and behind 8 well-formed IPv4 option areas (NOPs of 4 / 8 / 40 bytes, router alert, timestamp, record route, end-of-list)", total, t0);
 }
 
 /// The peer's advertised window (and urgent pointer) do not shape the answer: one complete
@@ -1596,7 +1621,7 @@ pub fn run_c15(rep: &mut Report, thorough: bool) {
             {
                 let shapes = stun_attr_shapes();
                 let dims = [shapes.len() as u64, 3];
-                sweep_app(rep, &env, &format!("stun-attr-shapes-{}", tag), "99 attribute types (0..0x30, 0x8000..0x8030, 3 more) x 7 well-formed value shapes (IPv4 address:port, IPv6 address:port, flag words 2 and 6, port word, text, empty) x {short message, >= 256 bytes with the attribute first, with the attribute last} x {UDP v4, UDP v6, TCP}", product(&dims), |i| {
+                sweep_app(rep, &env, &format!("stun-attr-shapes-{}", tag), "99 attribute types (0..0x30, 0x8000..0x8030, 3 more) x 7 well-formed value shapes (IPv4 address:port, IPv6 address:port, flag words 2 and 6, port word, text, empty) x {short message, >= 256 bytes with the attribute first, with the attribute last, each also in front of a CHANGE-REQUEST (change port)}; 288 dissected attributes longer than their fixed layout; x {UDP v4, UDP v6, TCP}", product(&dims), |i| {
                     let d = unrank(i, &dims);
                     let p = [pu4, pu6, Path { tcp: true, v6: false, ports: 1 }][d[1] as usize];
                     (p, shapes[d[0] as usize].clone())
@@ -2140,6 +2165,32 @@ pub fn run_c17(rep: &mut Report, thorough: bool) {
                 let first = if d[0] == 0 { n1.clone() } else { n2.clone() };
                 let third = if d[0] == 0 { appsmb::smb1_session_setup(&Smb1Hdr::new(0x73), &[7; 8]) } else { appsmb::smb2_session_setup(&Smb2Hdr::new(1), &[7; 8]) };
                 (Path { tcp: true, v6: d[1] == 1, ports: d[1] as usize }, vec![first, seconds[d[2] as usize].clone(), third])
+            });
+        }
+        // whatever dialect a negotiate selected, the NEXT message of the connection is judged as
+        // what it is: every dialect list of length <= 2 (both generations), then a session setup /
+        // negotiate of either generation
+        {
+            let l1: Vec<&Vec<usize>> = s1.iter().filter(|l| l.len() <= 2).collect();
+            let l2: Vec<&Vec<usize>> = s2.iter().filter(|l| l.len() <= 2).collect();
+            let nl = (l1.len() + l2.len()) as u64;
+            sweep_conv(rep, &env, &format!("smb-conversations-after-dialects-{}", tag), "[negotiate offering every dialect list of length <= 2 (SMB1: over 5 strings, SMB2: over 7 revisions)] then {SMB1 session setup, SMB2 session setup, SMB1 negotiate, SMB2 negotiate} x {v4,v6}", nl * 4 * 2, |i| {
+                let d = unrank(i, &[2, 4, nl]);
+                let k = d[2] as usize;
+                let first = if k < l1.len() {
+                    let l: Vec<&str> = l1[k].iter().map(|x| d1[*x]).collect();
+                    appsmb::smb1_negotiate(&Smb1Hdr::new(0x72), &l)
+                } else {
+                    let l: Vec<u16> = l2[k - l1.len()].iter().map(|x| d2[*x]).collect();
+                    appsmb::smb2_negotiate(&Smb2Hdr::new(0), &l, &[5; 16])
+                };
+                let second = match d[1] {
+                    0 => appsmb::smb1_session_setup(&Smb1Hdr::new(0x73), &[7; 8]),
+                    1 => appsmb::smb2_session_setup(&Smb2Hdr::new(1), &[7; 8]),
+                    2 => appsmb::smb1_negotiate(&Smb1Hdr::new(0x72), &["NT LM 0.12"]),
+                    _ => appsmb::smb2_negotiate(&Smb2Hdr::new(0), &[0x0202, 0x0311], &[5; 16]),
+                };
+                (Path { tcp: true, v6: d[0] == 1, ports: d[0] as usize }, vec![first, second])
             });
         }
         // the selected dialect is a function of WHICH dialects are offered and in which order
